@@ -20,3 +20,4 @@ CLAIMED.update({"C17": "DESIGN 4/C17"})
 CLAIMED.update({"C14": "DESIGN 4/C14"})
 CLAIMED.update({"C15": "DESIGN 4/C15"})
 CLAIMED.update({"C13": "DESIGN 4/C13"})
+CLAIMED.update({"C08": "DESIGN 4/C08"})
